@@ -571,7 +571,7 @@ func (c Case) inDomain() bool {
 	}
 	// negative subscripts: only in range, only on indexed arrays (out of range: class negative_index_out_of_range;
 	// on associative arrays the interpreter panics: reported to C28)
-	if p.Idx == "n" && p.IdxN < 0 {
+	if p.Idx == "n" && p.IdxN < 0 && c.V.Kind != "assoc" { // (on an associative array -1 is just a key that is not set)
 		if c.V.Kind != "idx" {
 			return false
 		}
@@ -780,9 +780,7 @@ func (c Case) inModel() bool {
 			return false
 		}
 	}
-	if c.V.Kind == "assoc" && p.Idx == "n" && p.IdxN < 0 {
-		return false // `${m[-1]}` panics: type assertion on a UnaryArithm (reported to C28)
-	}
+
 	if p.Idx == "k" && c.V.Kind != "assoc" {
 		return false
 	}
